@@ -56,14 +56,35 @@ func genC11(r *simrt.Rand, tier string) (Cfg, *Program) {
 		pf.CtrlOps = [2]int{1, 1}
 		pf.CtrlGapPct = 60
 	}
+	if r.Chance(12) {
+		// the queue handle is closed while accepted jobs are still held by the backend (an
+		// orderly shutdown): closing must not take anything out of the durable store
+		pf.Cancellers, pf.CancelOps = [2]int{1, 1}, [2]int{1, 2}
+		pf.Cancel = []wop{{opCloseQueue, 1}}
+	}
+	if r.Chance(12) {
+		// two acknowledging backends behind one worker, one of them refusing dequeues: every
+		// acknowledgement must go to the backend that issued it (both number their deliveries
+		// the same way).  No crash sweep for these (deriveC11).
+		pf.NQ = [2]int{2, 2}
+		pf.AdFaults = true
+		pf.Strategy = []int{0, 1, 2}
+	}
 	c, p := generate(r, pf)
+	if len(c.Queues) > 1 {
+		for i := range c.Queues {
+			if c.Queues[i].FDeq == 0 && r.Chance(60) {
+				c.Queues[i].FDeq = 30
+			}
+		}
+	}
 	if r.Chance(25) {
 		// entries this worker cannot decode (written by something else): delivered, reported,
 		// never processed - and therefore never acknowledged
 		for i, n := 0, 1+r.Intn(2); i < n && len(p.Tasks) > 0; i++ {
 			t := r.Intn(len(p.Tasks))
 			pos := r.Intn(len(p.Tasks[t]) + 1)
-			op := Op{K: opInject, Q: 0, A: r.Intn(4)}
+			op := Op{K: opInject, Q: 0, A: r.Intn(5)}
 			p.Tasks[t] = append(p.Tasks[t][:pos:pos], append([]Op{op}, p.Tasks[t][pos:]...)...)
 		}
 	}
@@ -73,7 +94,7 @@ func genC11(r *simrt.Rand, tier string) (Cfg, *Program) {
 // deriveC11 lists the crash points to sweep for a finished base episode.
 func deriveC11(ep *Episode, r *simrt.Rand, tier string) []Cfg {
 	n := ep.W.cuts
-	if n == 0 || ep.W.crashes > 0 {
+	if n == 0 || ep.W.crashes > 0 || len(ep.Cfg.Queues) > 1 {
 		return nil
 	}
 	all, sample := 150, 48
@@ -152,24 +173,26 @@ func judgeC11(j *judgeCtx) {
 	if j.ep.Res.Verdict != simrt.VDone {
 		return
 	}
-	var ad *simAdapter
+	var ads []*simAdapter
 	for _, q := range wd.qs {
 		if q.ad != nil {
-			ad = q.ad
+			ads = append(ads, q.ad)
 		}
 	}
-	if ad == nil {
+	if len(ads) == 0 {
 		return
 	}
 	inAdapter := func(n int) bool {
-		for _, e := range ad.pending {
-			if e.Sub == n {
-				return true
+		for _, ad := range ads {
+			for _, e := range ad.pending {
+				if e.Sub == n {
+					return true
+				}
 			}
-		}
-		for _, u := range ad.unacked {
-			if u.E.Sub == n {
-				return true
+			for _, u := range ad.unacked {
+				if u.E.Sub == n {
+					return true
+				}
 			}
 		}
 		return false
@@ -177,9 +200,11 @@ func judgeC11(j *judgeCtx) {
 	accepted := 0
 	for _, s := range wd.subs {
 		storedOK := false
-		for _, c := range ad.calls {
-			if c.Op == "enq" && c.Sub == s.N && c.OK {
-				storedOK = true
+		for _, ad := range ads {
+			for _, c := range ad.calls {
+				if c.Op == "enq" && c.Sub == s.N && c.OK {
+					storedOK = true
+				}
 			}
 		}
 		reported := s.Submitted && s.AcceptKnown && s.Accepted && s.AddRet != 0
@@ -206,12 +231,26 @@ func judgeC11(j *judgeCtx) {
 	// fault-free, no crash: everything acknowledged exactly once
 	// (with undecodable entries in the backend: their deliveries stay unacknowledged, and
 	// they may still be among the pending ones)
-	if !wd.crashed && ad.FiredAck == 0 && ad.FiredDeq == 0 && ad.injected == 0 && j.finalState == lsR {
-		if len(ad.unacked) != 0 {
-			j.add("C11.e", j.final, "%d deliveries are still unacknowledged at rest although nothing failed (first: %s, submission %d)", len(ad.unacked), ad.unacked[0].ID, ad.unacked[0].E.Sub)
+	firedAck, firedDeq, injected, unacked, acked, pending := 0, 0, 0, 0, 0, 0
+	for _, ad := range ads {
+		firedAck += ad.FiredAck
+		firedDeq += ad.FiredDeq
+		injected += ad.injected
+		unacked += len(ad.unacked)
+		acked += len(ad.acked)
+		pending += len(ad.pending)
+	}
+	if !wd.crashed && firedAck == 0 && firedDeq == 0 && injected == 0 && j.finalState == lsR {
+		if unacked != 0 {
+			for _, ad := range ads {
+				if len(ad.unacked) > 0 {
+					j.add("C11.e", j.final, "%d deliveries are still unacknowledged at rest although nothing failed (first: %s, submission %d)", unacked, ad.unacked[0].ID, ad.unacked[0].E.Sub)
+					break
+				}
+			}
 		}
-		if len(ad.acked) != accepted-len(ad.pending) {
-			j.add("C11.e", j.final, "%d acknowledgements for %d processed entries", len(ad.acked), accepted-len(ad.pending))
+		if acked != accepted-pending {
+			j.add("C11.e", j.final, "%d acknowledgements for %d processed entries", acked, accepted-pending)
 		}
 	}
 	_ = fmt.Sprintf
